@@ -53,7 +53,7 @@ PENDING: tuple = (
     # CliffordTableau caches its hash although apply_x/h/z/cx update it in place
     "C11-DERIVED:derive:tableau_apply",
     # hash depends on the order a dict was written in, == does not
-    "C11-HASH:twin:cirq.ProductState", "C11-HASH:twin:cirq._MeasurementSpec",
+    "C11-HASH:twin:cirq.ProductState", "C11-HASH:twin:cirq._MeasurementSpec", "C11-HASH:twin:cirq.InitObsSetting",
     # LinearDict with tuple keys is written but cannot be read (keys come back as lists)
     "C11-SUT-EXCEPTION:json:TypeError@cirq-core/cirq/value/linear_dict.py:_from_json_dict_",
     # FrozenCircuit / CircuitOperation holding an unhashable operation (KrausChannel, MixedUnitaryChannel)
@@ -69,8 +69,8 @@ PENDING: tuple = (
     # repr of a result with zero repetitions loses the array shape
     "C11-REPR:repr:cirq.ResultDict.records",
     # reprs that name a module attribute which does not exist
-    "C11-SUT-EXCEPTION:repr:AttributeError@outside-the-tree:module-has-no:cirq.ZipLongest",
-    "C11-SUT-EXCEPTION:repr:AttributeError@outside-the-tree:module-has-no:cirq.BayesianNetworkGate",
+    "C11-SUT-EXCEPTION:repr:AttributeError@outside-the-tree:module-has-no:ZipLongest",
+    "C11-SUT-EXCEPTION:repr:AttributeError@outside-the-tree:module-has-no:BayesianNetworkGate",
 )
 RECIPE_SOURCE_WEIGHTS = ((6, 1, 1), (4, 2, 3), (2, 2, 5))     # generated / stored example / mutated stored example
 
@@ -181,8 +181,11 @@ class _Run:
         # encoder): then the class of the value is what tells one defect from another
         generic = any(g in site for g in ("value/value_equality_attr.py", "cirq/_compat.py",
                                           "protocols/json_serialization.py", "outside-the-tree"))
+        import re as _re
+        m = _re.match(r"module '[\w.]+' has no attribute '(\w+)'", f["exc_msg"])
+        if m:
+            vtype = m.group(1)          # the name the representation uses, wherever the value was nested
         if generic:
-            import re as _re
             words = _re.sub(r"'[^']*'|\"[^\"]*\"", "", f["exc_msg"]).split()[:3]
             site = site + ":" + "-".join(_re.sub(r"[^A-Za-z]", "", w) for w in words)
         v = Violation(cls, f"{what} on node {node.idx} (PYTHONHASHSEED={node.seed}): {op} raised "
